@@ -48,9 +48,9 @@ func childBench() {
 	for rep := 0; rep < 2; rep++ {
 		for _, s := range sets {
 			ref := reference(text, s.B)
-			t0 := time.Now()
+			t0, c0 := time.Now(), cpu()
 			res := execOne(dir, text, s, &ref)
-			fmt.Fprintf(os.Stdout, "%-40s %8.1fms err=%q diff=%q\n", s, float64(time.Since(t0).Microseconds())/1000, res.Err, res.Diff)
+			fmt.Fprintf(os.Stdout, "%-40s %8.1fms cpu %6.1fms err=%q diff=%q\n", s, float64(time.Since(t0).Microseconds())/1000, (cpu()-c0)*1000, res.Err, res.Diff)
 		}
 	}
 }
